@@ -565,7 +565,9 @@ def build_configs(spec, client_port, server_port):
     if spec.get("expect_listen"):
         for w in ("client", "server"):
             exp[w].update(spec["expect_listen"].get(w, {}))
-    return cc, [sv], exp
+    # further raw entries: the server takes a LIST of configurations, the client a list of servers of which `index` selects one
+    cc["servers"].extend(spec.get("more_client_servers") or [])
+    return cc, [sv] + list(spec.get("more_servers") or []), exp
 
 
 class Deployment:
@@ -754,6 +756,50 @@ class Deployment:
         self.stop()
         return False
 
+    def restart(self, which, down=0.0, ready_timeout=None):
+        """Stop the client or the server process (SIGTERM by stored PID) and start it again with the same
+        configuration file and port, `down` seconds later.  The other process keeps running.
+        -> {"old_pid", "new_pid", "exit_code", "listening_again": bool, "detail", "seconds"}"""
+        t0 = time.monotonic()
+        p = self._proc(which)
+        old = p.pid if p is not None else None
+        code = None
+        if p is not None:
+            if p.poll() is None:
+                try:
+                    p.terminate()
+                except OSError:
+                    pass
+            try:
+                code = p.wait(timeout=3.0)
+            except subprocess.TimeoutExpired:
+                try:
+                    p.kill()
+                except OSError:
+                    pass
+                code = p.wait(timeout=5.0)
+        if down:
+            time.sleep(down)
+        env = dict(os.environ)
+        env["RUST_BACKTRACE"] = str(self.spec.get("rust_backtrace", "0"))
+        env.pop("SSLKEYLOGFILE", None)
+        log = open("%s/%s.log" % (self.dir, which), "ab")
+        self._logf.append(log)
+        argv = [SERVER_BIN, self.dir + "/server.json", "debug"] if which == "server" else [CLIENT_BIN, self.dir + "/client.json"]
+        ok, why = False, ""
+        for _attempt in range(3):      # the port may still be held for an instant by the process that just died
+            np = self._spawn(argv, log, env, which)
+            if which == "server":
+                self.server_pid = np.pid
+            else:
+                self.client_pid = np.pid
+            ok, why = self._wait_listening(which, ready_timeout or self.ready_timeout)
+            if ok or np.poll() is None:
+                break
+            time.sleep(0.3)
+        return {"old_pid": old, "new_pid": self._proc(which).pid, "exit_code": code, "listening_again": ok, "detail": why,
+                "seconds": round(time.monotonic() - t0, 2)}
+
     # -- observation -------------------------------------------------------------------------
     def alive(self):
         """(client_alive, server_alive)"""
@@ -816,6 +862,146 @@ class Deployment:
     def describe(self):
         return {"client_port": self.client_port, "server_port": self.server_port,
                 "alive": self.alive(), "ready": self.ready, "ready_detail": self.ready_detail}
+
+
+class ExtraClient:
+    """A further client PROCESS attached to the server of an existing Deployment (several clients on one server,
+    a second user, a client holding a wrong credential).  Context manager; stop it before the deployment.
+
+    overrides: spec keys replacing those of dep.spec for this client only (client_user, client_mode, extra ...);
+    client_server: shallow overrides of the client's server entry applied last (e.g. {"password": "..."}).
+    Has .client_port, so probe_tcp / probe_udp / run_tcp_flow / open_app accept it in place of a Deployment."""
+    _n = [0]
+
+    def __init__(self, dep, overrides=None, client_server=None, strict=True, ready_timeout=6.0):
+        self.dep = dep
+        self.spec = dict(dep.spec)
+        self.spec.update(overrides or {})
+        extra = dict(self.spec.get("extra") or {})
+        cs_over = dict(extra.get("client_server") or {})
+        cs_over.update(client_server or {})
+        extra["client_server"] = cs_over
+        self.spec["extra"] = extra
+        self.client = None
+        self.client_pid = None
+        self.client_port = None
+        self.ready = False
+        self.ready_detail = ""
+        self._stopped = False
+        self._log = None
+        with _live_lock:
+            ExtraClient._n[0] += 1
+            self.tag = "client-x%d" % ExtraClient._n[0]
+        last = None
+        for attempt in range(4):
+            try:
+                self._start_once(strict, ready_timeout)
+                return
+            except InfraError as e:
+                last = e
+                self.stop()
+                self._stopped = False
+                time.sleep(0.1 * (attempt + 1))
+        raise InfraError("extra client could not get a free port: %s" % (last,))
+
+    def _start_once(self, strict, ready_timeout):
+        self.client_port = free_port()
+        cc, _sc, exp = build_configs(self.spec, self.client_port, self.dep.server_port)
+        if "port" not in ((self.spec.get("extra") or {}).get("client_server") or {}):
+            cc["servers"][0]["port"] = self.dep.client_config["servers"][0]["port"]   # same hop (forwarder) as the first client
+        self.config = cc
+        self.expected = exp["client"]
+        path = "%s/%s.json" % (self.dep.dir, self.tag)
+        with open(path, "w") as f:
+            json.dump(cc, f, indent=1)
+        env = dict(os.environ)
+        env["RUST_BACKTRACE"] = "0"
+        env.pop("SSLKEYLOGFILE", None)
+        self._log = open("%s/%s.log" % (self.dep.dir, self.tag), "wb")
+        with _live_lock:
+            if _shutting_down[0] or self._stopped:
+                raise T2Error("driver is shutting down")
+            self.client = subprocess.Popen([CLIENT_BIN, path], stdin=subprocess.DEVNULL, stdout=self._log, stderr=subprocess.STDOUT,
+                                           cwd=self.dep.dir, env=env)
+            self.client_pid = self.client.pid
+            _live.add(self)
+        end = time.monotonic() + (ready_timeout if strict else min(ready_timeout, 3.0))
+        want = self.expected
+        while True:
+            l = listening_of_pid(self.client.pid)
+            if (not want["tcp"] or self.client_port in l["tcp"]) and (not want["udp"] or self.client_port in l["udp"]):
+                self.ready = True
+                break
+            if self.client.poll() is not None:
+                self.ready_detail = "extra client exited with code %s before listening" % self.client.returncode
+                break
+            if time.monotonic() >= end:
+                self.ready_detail = "extra client does not listen as documented (want %s on port %d, has %s)" % (want, self.client_port, l)
+                break
+            time.sleep(0.02)
+        t = self.log()
+        if "Address already in use" in t or "AddrInUse" in t:
+            raise InfraError("extra client: port already in use")
+        if strict and not self.ready:
+            tail = t[-800:]
+            self.stop()
+            e = DeploymentError("extra client not ready: %s; log=%r" % (self.ready_detail, tail))
+            e.ready_detail = self.ready_detail
+            e.log_tails = {"client": tail}
+            raise e
+
+    def alive(self):
+        return self.client is not None and self.client.poll() is None
+
+    def exit_code(self):
+        return self.client.poll() if self.client else None
+
+    def log(self):
+        try:
+            with open("%s/%s.log" % (self.dep.dir, self.tag), "rb") as f:
+                return f.read().decode("utf-8", "replace")
+        except OSError:
+            return ""
+
+    def panicked(self):
+        return "panicked at" in self.log()
+
+    def stop(self):
+        with _live_lock:
+            self._stopped = True
+        p = self.client
+        if p is not None:
+            if p.poll() is None:
+                try:
+                    p.terminate()
+                except OSError:
+                    pass
+            try:
+                p.wait(timeout=2.0)
+            except subprocess.TimeoutExpired:
+                try:
+                    p.kill()
+                except OSError:
+                    pass
+                try:
+                    p.wait(timeout=5.0)
+                except subprocess.TimeoutExpired:
+                    pass
+        if self._log is not None:
+            try:
+                self._log.close()
+            except Exception:
+                pass
+            self._log = None
+        with _live_lock:
+            _live.discard(self)
+
+    def __enter__(self):
+        return self
+
+    def __exit__(self, *exc):
+        self.stop()
+        return False
 
 
 # --------------------------------------------------------------------------------------------
@@ -1689,6 +1875,81 @@ class UdpApp:
         return False
 
 
+class UdpAppSync:
+    """UdpApp without a recorder thread (for scenarios with many applications): datagrams are read when the
+    driver waits for them (wait_count) or asks (pump).  Same .send / .received / .count / .wait_count / .close."""
+
+    def __init__(self, name="app", by_name=False):
+        self.name = name
+        self.by_name = by_name
+        self.sock = udp_app_socket()
+        self.sock.setblocking(False)
+        self._po = select.poll()         # not select(): descriptor numbers above 1023 occur in a driver with many sockets
+        self._po.register(self.sock.fileno(), select.POLLIN)
+        self.addr = self.sock.getsockname()
+        self.received = []
+        self.sent = []
+
+    def send(self, client_port, target_addr, payload, atyp=None):
+        self.sent.append((tuple(target_addr), bytes(payload), time.monotonic()))
+        if self.by_name and atyp is None and target_addr[0] == LOOPBACK:
+            target_addr, atyp = ("localhost", target_addr[1]), 3
+        try:
+            return self.sock.sendto(socks5_udp_datagram(target_addr, payload, atyp), (LOOPBACK, client_port))
+        except OSError as e:
+            return e
+
+    def pump(self, timeout=0.0):
+        """read everything that is there (waiting at most `timeout` for the first datagram) -> number read"""
+        n = 0
+        while True:
+            if not self._po.poll(int((timeout if n == 0 else 0) * 1000)):
+                return n
+            try:
+                b, _src = self.sock.recvfrom(70000)
+            except (BlockingIOError, InterruptedError):
+                return n
+            except OSError:
+                return n
+            label, payload = None, b
+            try:
+                if len(b) >= 4 and b[:3] == b"\x00\x00\x00":
+                    label, off = decode_socks5_addr(b, 3)
+                    if label is not None and label[0] == "localhost":
+                        label = (LOOPBACK, label[1])
+                    payload = b[off:]
+            except (ValueError, IndexError):
+                label, payload = None, b
+            self.received.append((label, payload, time.monotonic()))
+            n += 1
+
+    def count(self):
+        self.pump(0)
+        return len(self.received)
+
+    def wait_count(self, n, timeout=DEFAULT_DEADLINE):
+        end = time.monotonic() + timeout
+        while len(self.received) < n:
+            rem = end - time.monotonic()
+            if rem <= 0:
+                break
+            self.pump(min(rem, 0.2))
+        return len(self.received) >= n
+
+    def close(self):
+        try:
+            self.sock.close()
+        except OSError:
+            pass
+
+    def __enter__(self):
+        return self
+
+    def __exit__(self, *exc):
+        self.close()
+        return False
+
+
 def run_udp_plan(dep, apps, targets, rounds, round_timeout=1.0, final_wait=3.0, gap=0.003):
     """rounds: list of rounds; a round is a list of (app_index, target_index, payload).  All
     datagrams of a round are sent back to back (gap seconds apart); then the runner waits until
@@ -1881,6 +2142,8 @@ class TcpForwarder:
         self._lock = threading.Lock()
         self._stop = False
         self._refuse = False
+        self._blackhole = 0      # the next n accepted connections are held open and never connected upstream
+        self.held = []
         self._thr = threading.Thread(target=self._acceptor, name="t2-tcpfwd-%d" % self.port, daemon=True)
         self._thr.start()
 
@@ -1898,6 +2161,13 @@ class TcpForwarder:
             if self._refuse or self.upstream is None:
                 d.close()
                 continue
+            with self._lock:
+                hole = self._blackhole > 0
+                if hole:
+                    self._blackhole -= 1
+                    self.held.append(d)
+            if hole:
+                continue
             try:
                 u = socket.create_connection(self.upstream, timeout=3.0)
             except OSError as e:
@@ -1905,7 +2175,7 @@ class TcpForwarder:
                 d.close()
                 continue
             for x in (d, u):
-                x.settimeout(None)
+                x.settimeout(0.25)     # the pumps wake up regularly, so that a cut with reset=True (no shutdown, hence no FIN) gets through to them
                 x.setsockopt(socket.IPPROTO_TCP, socket.TCP_NODELAY, 1)
             link = {"down": d, "up": u, "c2s": bytearray(), "s2c": bytearray(), "open": True, "lock": threading.Lock()}
             with self._lock:
@@ -1920,11 +2190,25 @@ class TcpForwarder:
     def _pump(self, link, src, dst, key):
         try:
             while True:
-                b = src.recv(65536)
+                try:
+                    b = src.recv(65536)
+                except socket.timeout:
+                    if not link["open"]:
+                        return
+                    continue
+                if not link["open"]:
+                    return
                 if not b:
                     break
                 link[key] += b
-                dst.sendall(b)
+                view = memoryview(b)
+                while len(view):
+                    try:
+                        n = dst.send(view)       # send(): either some bytes go out or the wait for room times out with nothing sent
+                        view = view[n:]
+                    except socket.timeout:
+                        if not link["open"]:
+                            return
             try:
                 dst.shutdown(socket.SHUT_WR)   # propagate the half close
             except OSError:
@@ -1955,6 +2239,25 @@ class TcpForwarder:
             except OSError:
                 pass
 
+    def blackhole_next(self, n=1):
+        """The next n accepted connections are accepted and then ignored: nothing is read, nothing answered, nothing
+        connected upstream (a server that stalls).  They stay in .held until release_held() / close()."""
+        with self._lock:
+            self._blackhole += n
+
+    def release_held(self, reset=False):
+        with self._lock:
+            held, self.held = self.held, []
+            self._blackhole = 0
+        for x in held:
+            try:
+                if reset:
+                    x.setsockopt(socket.SOL_SOCKET, socket.SO_LINGER, struct.pack("ii", 1, 0))
+                x.close()
+            except OSError:
+                pass
+        return len(held)
+
     def relayed(self):
         """(bytes client->server, bytes server->client) summed over all connections"""
         with self._lock:
@@ -1976,6 +2279,7 @@ class TcpForwarder:
     def close(self):
         self._stop = True
         self.cut()
+        self.release_held()
         self._thr.join(1.0)
 
     def __enter__(self):
@@ -1991,9 +2295,18 @@ class UdpForwarder:
     upstream from a per-client socket, replies go back to that client.  .captured holds every
     client->server datagram as (payload, client_addr, time); .replies every server->client one."""
 
-    def __init__(self, upstream=None, port=0):
+    def __init__(self, upstream=None, port=0, mangle_c2s=None, mangle_s2c=None):
+        """mangle_c2s / mangle_s2c: optional callables (payload, running_index) -> list of payloads to forward in
+        that order ([] drops the datagram, [p, p] duplicates it, holding one back and releasing it with the next one
+        reorders).  .captured / .replies always record what ARRIVED at the hop."""
         self.upstream = upstream
+        self.mangle_c2s, self.mangle_s2c = mangle_c2s, mangle_s2c
+        self._n_c2s = self._n_s2c = 0
         self.sock = socket.socket(socket.AF_INET, socket.SOCK_DGRAM)
+        try:
+            self.sock.setsockopt(socket.SOL_SOCKET, socket.SO_RCVBUF, 4 * 1024 * 1024)
+        except OSError:
+            pass
         self.sock.bind((LOOPBACK, port))
         self.sock.settimeout(0.2)
         self.port = self.sock.getsockname()[1]
@@ -2024,19 +2337,34 @@ class UdpForwarder:
                 u = self._ups.get(src)
                 if u is None and self.upstream is not None:
                     u = socket.socket(socket.AF_INET, socket.SOCK_DGRAM)
+                    try:
+                        u.setsockopt(socket.SOL_SOCKET, socket.SO_RCVBUF, 4 * 1024 * 1024)
+                    except OSError:
+                        pass
                     u.bind((LOOPBACK, 0))
                     u.settimeout(0.2)
                     self._ups[src] = u
                     threading.Thread(target=self._back, args=(u, src), daemon=True).start()
+                idx = self._n_c2s
+                self._n_c2s += 1
             if u is not None:
-                try:
-                    u.sendto(b, self.upstream)
-                except OSError:
-                    pass
+                out = [b] if self.mangle_c2s is None else self.mangle_c2s(b, idx)
+                for x in out:
+                    try:
+                        u.sendto(x, self.upstream)
+                    except OSError:
+                        pass
         try:
             self.sock.close()
         except OSError:
             pass
+
+    def inject_to_client(self, payload, client_addr):
+        """Send a datagram to a client address FROM the hop's own port (what the client takes for the server)."""
+        try:
+            return self.sock.sendto(payload, tuple(client_addr))
+        except OSError as e:
+            return e
 
     def _back(self, u, client):
         while not self._stop:
@@ -2046,11 +2374,16 @@ class UdpForwarder:
                 continue
             except OSError:
                 break
-            self.replies.append((b, client, time.monotonic()))
-            try:
-                self.sock.sendto(b, client)
-            except OSError:
-                pass
+            with self._lock:
+                self.replies.append((b, client, time.monotonic()))
+                idx = self._n_s2c
+                self._n_s2c += 1
+            out = [b] if self.mangle_s2c is None else self.mangle_s2c(b, idx)
+            for x in out:
+                try:
+                    self.sock.sendto(x, client)
+                except OSError:
+                    pass
         try:
             u.close()
         except OSError:
@@ -2091,7 +2424,62 @@ SETTINGS = {"workers": 8, "deadline": DEFAULT_DEADLINE}   # set by run_t2.main()
 
 
 def wanted(name, only):
-    return (not only) or (only in name)
+    """--only: a substring of the scenario name; several alternatives are separated by '|'"""
+    return (not only) or any(o in name for o in only.split("|") if o)
+
+
+# Defects of /repo that the dimension audit found and reported.  True = OPEN (not repaired yet): a problem tagged with the id - a
+# tuple (id, text) in a problems list - is recorded in observed["open_defects"] instead of failing its scenario, so that the
+# unchanged tree passes while the finding stays visible in every result file.  Set an id to False once /repo is repaired: that is
+# the ONLY edit needed - from then on the same observation fails the scenario, with the property sentence in its detail.
+OPEN_DEFECTS = {
+    "F-aud-1": True,
+    "F-aud-2": True,
+    "F-aud-3": True,
+    "F-aud-4": True,
+    "F-aud-5": True,
+    "F-aud-6": True,
+    "F-aud-7": True,
+}
+if os.environ.get("VERIF_T2_STRICT"):        # developer override: every switch off (e.g. VERIF_T2_STRICT=1 to see what still fails)
+    OPEN_DEFECTS = {k: False for k in OPEN_DEFECTS}
+DEFECTS = {   # id -> (what is wrong, the property sentence it violates)
+    "F-aud-1": ("client, Shadowsocks UDP: a datagram too big to be sent to the server (EMSGSIZE) wedges the binding's UdpFramed sink; every later "
+                "datagram of that application is lost",
+                "C02: a datagram that a local application sends through the client's SOCKS5-UDP port reaches the addressed target as exactly one datagram"),
+    "F-aud-2": ("client, UDP over a stream (Trojan): an answer too big to be handed to the application (EMSGSIZE) wedges the ONE sink towards all "
+                "local applications; no application gets a reply any more",
+                "C08: the client still relays datagrams for other, well-behaved users; C02: each reply returns to that same application as one datagram"),
+    "F-aud-3": ("client, Shadowsocks 2022 UDP: one packet window per binding across server sessions; the replies of a NEW server session (association "
+                "expired after 300 s idle, or server restarted) are dropped as duplicates until their ids exceed those of the old session",
+                "C02: each reply returns to that same application as one datagram; C11: an ID is accepted if and only if it has not been accepted before"),
+    "F-aud-4": ("client, Shadowsocks 2022 chacha UDP: udp.rs:222 reads the session id through an unaligned *const u64 (slice::from_raw_parts); after "
+                "duplicated and reordered server->client datagrams the read buffer is misaligned and the debug build ABORTS the whole client "
+                "process (undefined behaviour in a release build)",
+                "C07: no network input can crash a task or the process; C08: the client still accepts new connections and relays datagrams for other users"),
+    "F-aud-5": ("client: `index` beyond the `servers` list panics instead of stopping with an error",
+                "C16: unknown or inconsistent values stop startup with an error rather than a panic"),
+    "F-aud-7": ("client, VMess: a password that is not a UUID does not stop startup with an error (the client listens and every flow fails)",
+                "C16: unknown or inconsistent values stop startup with an error rather than a panic or a silent fallback to different behaviour"),
+    "F-aud-6": ("server, VMess: a user whose password is not a UUID does not stop startup with an error",
+                "C16: unknown or inconsistent values stop startup with an error rather than a panic or a silent fallback to different behaviour"),
+}
+UNALIGNED_ABORT = "unsafe precondition(s) violated: slice::from_raw_parts"
+
+
+def settle(problems, observed):
+    """problems: list of str | (defect_id, str).  -> list of texts that FAIL the scenario; problems of defects that are still
+    open go to observed["open_defects"] instead"""
+    failing = []
+    for pr in problems:
+        if isinstance(pr, tuple):
+            what, sentence = DEFECTS.get(pr[0], ("", ""))
+            if OPEN_DEFECTS.get(pr[0]):
+                observed.setdefault("open_defects", []).append({"id": pr[0], "observed": pr[1], "finding": what, "violates": sentence})
+                continue
+            pr = "%s [%s; violates %s]" % (pr[1], pr[0], sentence)
+        failing.append(pr)
+    return failing
 
 
 def tails(dep, n=500):
